@@ -724,6 +724,11 @@ func registerLib(e *Engine) {
 	}
 	I["net.DialTimeout"] = dialFail
 	I["net.Dial"] = dialFail
+	// generated validation of an address parses the IP with net/netip (unsafe); addresses in the
+	// harnesses are well-formed literals
+	I["(*github.com/samaritan-proxy/samaritan/pb/common.Address).Validate"] = func(e *Engine, st *State, th *Thread, args []Value, call *ssa.CallCommon) (Value, bool) {
+		return Iface{}, true
+	}
 	I["os.Getpid"] = func(e *Engine, st *State, th *Thread, args []Value, call *ssa.CallCommon) (Value, bool) {
 		return e.i64(4242), true
 	}
